@@ -137,7 +137,7 @@ def run(ctx, tier):
     rule = 'C13.lock-lives'
     # judged inside DBInner::open with its private helpers folded in (lock_file(..), from_parts(..) ...)
     XO = ctx.x(dbopen)
-    xsites = [(XO, bb) for bb, t, c in calls_named(F, XO, 'FileExt::lock_exclusive')]
+    xsites = [(XO, bb) for bb, t, c in calls_named(F, XO, 'FileExt::lock_exclusive', 'File::lock')]
     lock_sites = xsites if xsites else [(T.nodes[e['node']].fn, T.nodes[e['node']].bb) for e in good]
     loc_of = {}
     for e, (fn, lbb) in zip(good + good, lock_sites):
@@ -183,7 +183,7 @@ def run(ctx, tier):
             results.append(bad(rule, '%s | %s' % (fn.qual, last_seg(strip_generics(c['path']))),
                                '%s calls %s at %s: the advisory lock could be released or shared while the database is open' % (fn.qual, strip_generics(c['path']), fn.loc(bb)), where=fn.loc(bb)))
     # positive control of the matcher used for the zero-expected rule: it must find the lock_exclusive call
-    ctl = sum(len(calls_named(F, fn, 'FileExt::lock_exclusive')) for fn in F.fns)
+    ctl = sum(len(calls_named(F, fn, 'FileExt::lock_exclusive', 'File::lock')) for fn in F.fns)
     f = floor(rule, 'positive control: matcher finds FileExt::lock_exclusive', ctl, 1)
     if f:
         results.append(f)
